@@ -5,6 +5,35 @@ use crate::parser::context::ParseContext;
 use crate::parser::matchable::MatchableTrait;
 use crate::parser::segments::base::{ErasedSegment, SegmentBuilder, Tables};
 
+/// Verification hook (only with `--cfg sqruff_verif`): record the root grammar match of
+/// `root_parse` (code span and the `MatchResult` before `apply`).
+#[cfg(sqruff_verif)]
+pub mod verif_hook {
+    use std::cell::RefCell;
+
+    use crate::parser::match_result::MatchResult;
+
+    pub struct RootMatch {
+        pub start_idx: u32,
+        pub end_idx: u32,
+        pub match_result: MatchResult,
+    }
+
+    thread_local! {
+        pub static ROOT_MATCH: RefCell<Option<RootMatch>> = const { RefCell::new(None) };
+    }
+
+    pub fn record(start_idx: u32, end_idx: u32, match_result: &MatchResult) {
+        ROOT_MATCH.with(|r| {
+            *r.borrow_mut() = Some(RootMatch { start_idx, end_idx, match_result: match_result.clone() })
+        })
+    }
+
+    pub fn take() -> Option<RootMatch> {
+        ROOT_MATCH.with(|r| r.borrow_mut().take())
+    }
+}
+
 #[derive(Debug, Clone, PartialEq)]
 pub struct FileSegment;
 
@@ -51,6 +80,9 @@ impl FileSegment {
             start_idx,
             parse_context,
         )?;
+
+        #[cfg(sqruff_verif)]
+        verif_hook::record(start_idx, end_idx, &match_result);
 
         let match_span = match_result.span;
         let has_match = match_result.has_match();
